@@ -22,7 +22,7 @@ ASSUMPTIONS = ["numpy/scipy oracles are correct", "CasADi SX virtual machine eva
                "results within 2.5e-3 rad of gimbal lock are excluded (counted as skipped_domain)"]
 
 N_QUICK = 20000
-N_THOROUGH = 250000
+N_THOROUGH = 600000
 
 
 def nontrivial(spec, P):
@@ -44,6 +44,8 @@ def run(ctx):
     if ctx.shard == 0:
         run_contract_slice(ctx, base_specs() + product_specs(cfg_rng, "quick")[:3], 60 if ctx.quick else 600,
                            ops=("product", "inverse", "identity"))
+    if ctx.shard == 1 % ctx.nshards:
+        repo_tests_under_contracts(ctx)
     ctx.require("product:SO3Quat") if any(s.name == "SO3Quat" for s in mine) else None
 
 
@@ -165,3 +167,35 @@ def mrp_composite_ok(spec, Mleft, Pother, left_is_matrix):
         i += p.md
         j += p.n
     return ok
+
+
+def repo_tests_under_contracts(ctx):
+    """the repository's own Lie-group tests, executed with the post-conditions attached to the real methods: the
+    contracts then see every numeric product/inverse/identity/exp/log the tests make, including nested ones"""
+    import json
+    import os
+    import subprocess
+    import sys
+    from .. import core
+    out = os.path.join(ctx.workdir, "contracts-%d.json" % ctx.shard)
+    env = dict(os.environ)
+    env["PYTHONPATH"] = os.pathsep.join([core.REPO, core.VERIF, core.DEPS])
+    env["VERIF_CONTRACT_OUT"] = out
+    env["MPLBACKEND"] = "Agg"
+    r = subprocess.run([sys.executable, "-m", "pytest", "-q", "-p", "no:cacheprovider", "-p", "vlib.pytest_contracts", "--timeout=900",
+                        os.path.join(core.REPO, "tests", "lie")], capture_output=True, text=True, timeout=1500, env=env, cwd=ctx.workdir)
+    if not os.path.exists(out):
+        ctx.inconclusive.append("repo tests under contracts produced no report: " + (r.stdout + r.stderr)[-300:])
+        return
+    rep = json.load(open(out))
+    tot = 0
+    for op, st in rep["stats"].items():
+        ctx.count("repo_tests_contract_evaluated:" + op, st["evaluated"])
+        ctx.count("repo_tests_contract_skipped_symbolic:" + op, st["skipped_symbolic"])
+        ctx.tally("contract_under_repo_tests:" + op, st["evaluated"])
+        tot += st["evaluated"]
+    for name, cls, det in rep["violations"]:
+        ctx.violation("contract_under_repo_tests_" + name, cls, det)
+    ctx.note("repo_tests_under_contracts", {"pytest_exit": rep["exitstatus"], "tail": r.stdout.strip().splitlines()[-1:] if r.stdout else []})
+    if tot == 0:
+        ctx.inconclusive.append("contracts never evaluated while running the repository's tests")
